@@ -7,6 +7,8 @@
 //!   dir     Tee::next called directly                  (model: dir; results compared)
 //!   bgq     BackgroundQueue over the tee, flush, drop  (model: imm, `next` logs only)
 //!   fmt     FlushImmediately over Emf.output_to(writer failing hard at scripted calls) (oracle only)
+//!   fmtseq  one persistent validating Emf behind FlushImmediately / BackgroundQueue, mixed plain / split /
+//!           rejected entries: the writer must receive exactly the accepted entries' records, entry by entry (oracle only)
 //!
 //! Oracle (from the property, not from the model): every leaf stream receives every appended entry
 //! exactly once in append order whatever any stream returned; every leaf is flushed after every
@@ -433,6 +435,112 @@ fn run_fmt(n: usize, fail: &[usize]) -> Option<String> {
     None
 }
 
+// ---- fmtseq kind: one persistent validating Emf formatter behind a sink, entries of several shapes
+// (plain, split over several records, rejected for a validation defect), oracle: the writer received
+// exactly the records of the accepted entries, entry by entry in append order ------------------------
+
+use verif_harness::gen_entry::{GFlags, GItem, GVal, GenEntry};
+
+fn gen_seq_entry(rng: &mut Rng, idx: usize) -> GenEntry {
+    let mut items = vec![GItem::Timestamp(1_700_000_000_000_000 + idx as i64)];
+    let shape = rng.below(6);
+    let split = matches!(shape, 1 | 2);
+    if split {
+        items.push(GItem::allow_split());
+    }
+    items.push(GItem::Value(format!("S{idx}"), GVal::Str(format!("v{}", rng.below(5)))));
+    let n = rng.range(1, 4) as usize;
+    for i in 0..n {
+        // shapes 3 and 4 are invalid: per-metric dimensions without split mode / duplicate name
+        let dims = match shape {
+            1 | 2 | 3 if rng.chance(2, 3) => vec![("D".to_string(), format!("d{}", rng.below(3)))],
+            _ => vec![],
+        };
+        let name = if shape == 4 && i > 0 { format!("M{idx}_0") } else { format!("M{idx}_{i}") };
+        items.push(GItem::Value(
+            name,
+            GVal::Metric {
+                obs: (0..rng.range(1, 3)).map(|_| Observation::Unsigned(rng.below(100))).collect(),
+                unit: metrique_writer_core::Unit::None,
+                dims,
+                flags: GFlags::None,
+            },
+        ));
+    }
+    GenEntry { items, sample_group: vec![] }
+}
+
+fn fresh_records(e: &GenEntry) -> Option<Vec<Vec<u8>>> {
+    use metrique_writer_core::format::Format;
+    let mut f = Emf::all_validations("Ns".into(), vec![vec![]]);
+    let mut out = vec![];
+    match f.format(e, &mut out) {
+        Ok(()) => Some(out.split_inclusive(|b| *b == b'\n').map(|l| l.to_vec()).collect()),
+        Err(_) => None,
+    }
+}
+
+/// returns (encoded case, number of rejected entries, oracle failure)
+fn run_fmtseq(entries: &[GenEntry], via_queue: bool) -> (usize, Option<String>) {
+    let out: Arc<Mutex<Vec<u8>>> = Default::default();
+    let w = FailAt { fail: vec![], call: 0, out: out.clone() };
+    let stream = Emf::all_validations("Ns".into(), vec![vec![]]).output_to(w);
+    let es: Vec<GenEntry> = entries.to_vec();
+    let r = catch(move || {
+        if via_queue {
+            let (q, handle) = BackgroundQueueBuilder::new().capacity(es.len() + 8).flush_interval(Duration::from_secs(50)).build::<GenEntry>(stream);
+            for e in es {
+                q.append(e);
+            }
+            drop(handle);
+        } else {
+            let sink = FlushImmediately::<GenEntry, _>::new(stream);
+            for e in es {
+                sink.append(e);
+            }
+        }
+    });
+    if let Err(p) = r {
+        return (0, Some(format!("panicked: {p}")));
+    }
+    let mut got = out.lock().unwrap().clone();
+    if via_queue {
+        // the background queue may write its own rate-limited in-band error report after a validation
+        // failure (allowed by C01): drop those lines before judging
+        got = got
+            .split_inclusive(|b| *b == b'\n')
+            .filter(|l| !String::from_utf8_lossy(l).contains("\"MetriqueValidationError\":"))
+            .flat_map(|l| l.to_vec())
+            .collect();
+    }
+    let mut rest: &[u8] = &got;
+    let mut rejected = 0;
+    for (i, e) in entries.iter().enumerate() {
+        let Some(mut recs) = fresh_records(e) else {
+            rejected += 1;
+            continue;
+        };
+        while !recs.is_empty() {
+            match recs.iter().position(|l| rest.starts_with(l)) {
+                Some(k) => {
+                    let l = recs.remove(k);
+                    rest = &rest[l.len()..];
+                }
+                None => {
+                    return (rejected, Some(format!(
+                        "entry {i}: the writer did not receive exactly this entry's records next; output continues with {:?}",
+                        String::from_utf8_lossy(&rest[..rest.len().min(160)])
+                    )));
+                }
+            }
+        }
+    }
+    if !rest.is_empty() {
+        return (rejected, Some(format!("extra bytes after the last entry's records: {:?}", String::from_utf8_lossy(&rest[..rest.len().min(160)]))));
+    }
+    (rejected, None)
+}
+
 fn gen_case(rng: &mut Rng, kinds: &[&str]) -> Case {
     let shape = rng.below(SHAPES.len() as u64) as usize;
     let n = SHAPES[shape].1;
@@ -531,6 +639,39 @@ fn main() {
             if let Some(what) = run_fmt(n, &fail) {
                 rep.oracle_failure("sinks:fmt", &enc, "", &what);
             }
+        }
+    }
+    // fmtseq kind (oracle only): persistent validating formatter, mixed accepted / rejected / split entries
+    let mut seqs: Vec<(Vec<GenEntry>, bool)> = vec![];
+    if let Some(line) = args.replay_case() {
+        if let Some(body) = line.strip_prefix("fmtseq ") {
+            let (q, rest) = body.split_once(' ').unwrap_or(("imm", body));
+            seqs.push((rest.split(" ;; ").filter_map(GenEntry::decode).collect(), q == "bgq"));
+        }
+    } else {
+        for l in args.corpus_cases() {
+            if let Some(body) = l.strip_prefix("fmtseq ") {
+                let (q, rest) = body.split_once(' ').unwrap_or(("imm", body));
+                seqs.push((rest.split(" ;; ").filter_map(GenEntry::decode).collect(), q == "bgq"));
+            }
+        }
+        let ns = if args.thorough() { 40_000 } else { 2_500 };
+        for k in 0..ns {
+            let n = rng.range(2, 6) as usize;
+            seqs.push(((0..n).map(|i| gen_seq_entry(&mut rng, i)).collect(), k % 10 == 0));
+        }
+    }
+    for (entries, via_queue) in &seqs {
+        let enc = format!("fmtseq {} {}", if *via_queue { "bgq" } else { "imm" }, entries.iter().map(|e| e.encode()).collect::<Vec<_>>().join(" ;; "));
+        let (rejected, fail) = run_fmtseq(entries, *via_queue);
+        rep.case(&enc, rejected > 0 && rejected < entries.len());
+        rep.bump(if *via_queue { "kind:fmtseq-bgq" } else { "kind:fmtseq" });
+        rep.bump_by("fmtseq rejected entries", rejected as u64);
+        if fail.is_some() {
+            let shrunk = shrink_list(entries, |es| run_fmtseq(es, *via_queue).1.is_some());
+            let (_, what) = run_fmtseq(&shrunk, *via_queue);
+            let enc = format!("fmtseq {} {}", if *via_queue { "bgq" } else { "imm" }, shrunk.iter().map(|e| e.encode()).collect::<Vec<_>>().join(" ;; "));
+            rep.oracle_failure("sinks:fmtseq", &enc, "", &what.unwrap_or_default());
         }
     }
     rep.write(&args);
